@@ -41,7 +41,7 @@ def gen_cases(tier, seed):
                 gid += 1
     # the bound must not depend on what the files look like or on other options either
     variants = [("empty-files", [], "empty"), ("options", ["--fsync", "--backup", "numbered", "--gitignore"], "mixed"), ("deref+links", ["-L"], "links"),
-                ("sparse-files", ["--no-perms"], "sparse")]
+                ("sparse-files", ["--no-perms", "--ownership"], "sparse"), ("many-dirs", [], "dirs")]
     for vi, (vname, extra, content) in enumerate(variants):
         for driver in ("parblock", "parfile"):
             if tier == "quick" and (vi + (driver == "parfile")) % 2:
@@ -65,9 +65,10 @@ def run_case(case):
         src = os.path.join(b(root), b"src")
         os.makedirs(src)
         blk = tree.body(7, 3 * bs)
-        ndirs = max(1, n // 250)
+        ndirs = max(1, n // 250) if case.get("content") != "dirs" else n // 2
         for d in range(ndirs):
-            os.mkdir(os.path.join(src, b"d%03d" % d))
+            # the many-dirs variant nests every tenth directory ten levels deep
+            os.makedirs(os.path.join(src, b"d%03d" % d))
         content = case.get("content", "mixed")
         nfiles = n
         for i in range(n):
